@@ -10,7 +10,8 @@ CONSTANT ReplyLen     \* chunks of a complete reply (only used by the operationa
 \* ---- the behaviour catalogue
 OkLike      == {"ok0", "ok1", "ok2", "okinfo", "okwarn", "oksource"}   \* valid reply with 0..2 files; with one file and a diagnostic (info / warning / naming its source)
 NotStarted  == {"missing", "noexec"}                  \* cannot be spawned
-ExitsBadly  == {"exit1", "exit255", "sigkill", "sigsegv"}
+\* "replykill" / "replyabrt": a complete, valid reply is written and flushed, then the generator dies from a signal
+ExitsBadly  == {"exit1", "exit255", "sigkill", "sigsegv", "replykill", "replyabrt"}
 \* undecodable strings one field at a time (file path, contents, diagnostic message, diagnostic source); "cut" = the string
 \* stops in the middle of a multi-byte character
 BadStrings  == {"badutf8", "badutf8cut", "badcontents", "badcontentsmid", "badmsg", "badmsgcut", "badsource", "badsourcecut"}
@@ -19,7 +20,7 @@ Catalogue   == OkLike \cup NotStarted \cup ExitsBadly \cup BadReply \cup {"stder
 ReadsAll(b) == b \in OkLike \cup ExitsBadly \cup BadReply \cup {"stderr0"}
 NFilesOf(b) == CASE b \in {"ok1", "okinfo", "okwarn", "oksource"} -> 1 [] b = "ok2" -> 2 [] OTHER -> 0
 \* how many reply chunks a behaviour writes before exiting
-ReplyChunks(b) == CASE b \in OkLike \cup BadStrings \cup {"badbool", "badlevel", "hugesize"} -> ReplyLen
+ReplyChunks(b) == CASE b \in OkLike \cup BadStrings \cup {"badbool", "badlevel", "hugesize", "replykill", "replyabrt"} -> ReplyLen
                     [] b \in {"trunc1", "truncmid", "trunclast", "truncat"} -> ReplyLen - 1
                     [] OTHER -> 0
 
